@@ -6,22 +6,11 @@
   non-identity, on the curve and in the prime-order subgroup, is checked by the correspondence run
   (`C09/hyrax-setup/*`) with an independent re-derivation.
 -/
-import PCV.Proofs.Hyrax
-import PCV.Model.HyraxSetup
+import PCV.Proofs.HyraxSetup
 import PCV.Props.Examples
 
 set_option linter.unusedSectionVars false
 set_option linter.unusedVariables false
-
-namespace PCV.Hyrax
-/-- inversion of `setup` -/
-theorem setup_inv {F : Type} (gen : Nat → F) (n : Nat) (pp : UParams F) (h : setup gen (some n) = .ok pp) :
-    n % 2 = 0 ∧ pp = ⟨(List.range (2 ^ (n / 2))).map gen, gen (2 ^ (n / 2))⟩ := by
-  by_cases hn : n % 2 = 1
-  · simp [setup, hn] at h
-  · simp only [setup, hn, if_false, Except.ok.injEq, setupCounters] at h
-    exact ⟨by omega, h.symm⟩
-end PCV.Hyrax
 
 namespace PCV.C09
 open PCV PCV.Hyrax
